@@ -5,10 +5,13 @@
 #include "handle.h"
 #include "pipe.h"
 
+// `redirect->type` is updated if another type than the one requested ends up
+// being used (parent stream closed => discard) so that `redirect_destroy` knows
+// who owns `child`.
 int redirect_init(pipe_type *parent,
                   handle_type *child,
                   REPROC_STREAM stream,
-                  reproc_redirect redirect,
+                  reproc_redirect *redirect,
                   bool nonblocking,
                   handle_type out);
 
